@@ -44,12 +44,12 @@ func tornManifestProbe(res *vlib.Result, puts int) (string, *tornManifestCase) {
 	for i := 0; i < puts; i++ {
 		k := fmt.Sprintf("k%06d", i)
 		if err := db.Put([]byte(k), val, &opt.WriteOptions{Sync: true}); err != nil {
-			db.Close()
+			closeDB(db)
 			return "", nil
 		}
 		acks = append(acks, ack{k, stor.OpCount()})
 	}
-	db.Close()
+	closeDB(db)
 	sizes := map[storage.FileDesc]int{}
 	type pt struct{ c, off int }
 	var pts []pt
@@ -87,7 +87,7 @@ func tornManifestProbe(res *vlib.Result, puts int) (string, *tornManifestCase) {
 				}
 			}
 		}
-		db2.Close()
+		closeDB(db2)
 		if lost > 0 {
 			tc := &tornManifestCase{What: "torn-manifest", Puts: puts, ValueLen: len(val), WriteBuffer: 2048, CrashIdx: p.c, ManifestOff: p.off, Lost: lost, FirstLost: first}
 			return fmt.Sprintf("manifest record split over a 32 KiB block boundary and torn between its two storage writes (crash after storage op %d, manifest at %d bytes, every written byte kept): %d Puts acknowledged with sync are absent after recovery (first %s)", p.c, p.off, lost, first), tc
